@@ -71,7 +71,7 @@ def processTemplateStep (c : Ctx) (ver : Nat) (d : AttrDict) (a : TAttr) : R Att
     let values := match d.get a.name with
       | some (.multi vs) => vs
       | _ => []
-    if a.index.isNone && values.length > 0 then
+    if a.index.isNone && values.length > 0 && ver < 20 then
       kerr Rsn.invalidField "Attribute index missing from multivalued attribute."
     else pure (d.set a.name (.multi (values ++ [a.value])))
   else
